@@ -12,3 +12,11 @@ from .net import *
 from .pub import *
 
 from ._generated import *
+
+from importlib import import_module as _import_module
+
+# The star-imports above also copy module objects that share a name with one of this package's
+# own submodules (e.g. eolib.protocol._generated.net would shadow eolib.protocol.net).
+# Make sure the documented submodules win.
+for _name in ("serialization_error", "protocol_enum_meta", "map", "net", "pub"):
+    globals()[_name] = _import_module(f".{_name}", __name__)
